@@ -3,6 +3,7 @@ import BigtreeProofs.Lemmas.Search
 import BigtreeProofs.Lemmas.SearchPaths
 import BigtreeProofs.Lemmas.SearchChecks
 import BigtreeProofs.Lemmas.SearchFullPath
+import BigtreeProofs.Lemmas.SearchStrMulti
 import BigtreeProofs.Lemmas.QueryIterBridge
 import BigtreeProofs.Lemmas.QueryExamples
 /-!
@@ -228,6 +229,46 @@ example : (∀ (x : Addr) (t : Tree), sub exNamed x = some t → t.name ≠ []) 
     have := allSub_sub (fun t => !t.name.isEmpty) x exNamed t (by decide) h
     intro e; simp [e] at this
 example : pathName exNamed ['/'] [2, 0] = ['/', 'a', '/', 'b', 'a', '/', 'a', 'b'] := by decide
+
+/-- `find_full_path_iff` for EVERY non-empty separator (`"::"`, `"->"`, ...): the names share no character with
+    the separator (`Store.Free`; for a one-character separator this is `s ∉ name`, `Store.free_singleton`).  Python's
+    `lstrip` / `rstrip` take the separator as a character SET, which is what the model does. -/
+theorem find_full_path_iff_multi (R : Tree) (sp : Str) (hsp : sp ≠ []) (a : Addr) (q : Str)
+    (hfree : ∀ (x : Addr) (t : Tree), sub R x = some t → Store.Free sp t.name) (hu : SibUnique R) (v : Addr) :
+    findFullPath R sp a q = .ok (some v) ↔
+      (sub R v).isSome ∧ join sp (pathNames R v) = lstrip sp (rstrip sp q) :=
+  findFullPath_iff_multi sp hsp a q hfree hu v
+
+/-- looking up a node's own `path_name` from anywhere in the tree finds that node, for every non-empty separator,
+    also with any run of separator characters in front of / behind the path. -/
+theorem find_full_path_path_name_multi (R : Tree) (sp : Str) (hsp : sp ≠ []) (a v : Addr) (lead trail : Str)
+    (hl : ∀ x ∈ lead, x ∈ sp) (ht : ∀ x ∈ trail, x ∈ sp)
+    (hfree : ∀ (x : Addr) (t : Tree), sub R x = some t → Store.Free sp t.name)
+    (hne : ∀ (x : Addr) (t : Tree), sub R x = some t → t.name ≠ [])
+    (hu : SibUnique R) (hv : (sub R v).isSome) :
+    findFullPath R sp a (lead ++ pathName R sp v ++ trail) = .ok (some v) :=
+  findFullPath_pathName_multi sp hsp a v lead trail hl ht hfree hne hu hv
+
+/-- `join (split x) = x` for every string and every non-empty separator: what `find_paths` / `find_full_path` cut a
+    query into is the query -/
+theorem join_split_multi (sp : Str) (hsp : sp ≠ []) (x : Str) : join sp (split sp x) = x :=
+  Search.join_split_multi sp hsp x
+
+-- the hypotheses are met by the example tree with the separator "::", and the lookups compute
+example : (∀ (x : Addr) (t : Tree), sub exNamed x = some t → Store.Free [':', ':'] t.name) :=
+  fun x t h => by
+    have := allSub_sub (fun t => t.name.all fun c => !([':', ':'] : Str).contains c) x exNamed t (by decide) h
+    intro c hc
+    have h2 := List.all_eq_true.1 this c hc
+    intro hm
+    simp only [Bool.not_eq_true'] at h2
+    have : ([':', ':'] : Str).contains c = true := by simpa using hm
+    rw [this] at h2; exact absurd h2 (by decide)
+example : findFullPath exNamed [':', ':'] [1] [':', ':', 'a', ':', ':', 'b', 'a', ':', ':', 'a', 'b', ':'] = .ok (some [2, 0]) := rfl
+example : findFullPath exNamed [':', ':'] [] (pathName exNamed [':', ':'] [0, 0]) = .ok (some [0, 0]) := rfl
+-- just outside the hypothesis (a name that ENDS in a separator character) the character-set strip eats it: K7's shape
+example : findFullPath (.node 0 ['r'] [] [.node 1 ['a', ':'] [] []]) [':', ':'] []
+    (pathName (.node 0 ['r'] [] [.node 1 ['a', ':'] [] []]) [':', ':'] [0]) = .ok none := rfl
 
 /-- the located pre-order behind `findall`, `descendants`, `leaves` is C04's model of
     `preorder_iter` (no stop condition): same node identities in the same order, whenever the
